@@ -79,7 +79,34 @@ class SendSocket(FakeSocket):
         self.closed = True
 
 
-def node_iteration(peer_no, command, payload, queue_before, n_peers=2):
+class RelyDeque:
+    """Deterministic scheduler for one interference point: right after this thread's first append, another peer's
+    thread appends its own message (one atomic deque call each, A-gil)."""
+
+    def __init__(self, items, foreign):
+        from collections import deque
+        self.d = deque(items)
+        self.foreign = list(foreign)
+
+    def append(self, x):
+        self.d.append(x)
+        if self.foreign:
+            self.d.append(self.foreign.pop(0))
+
+    def pop(self):
+        return self.d.pop()
+
+    def popleft(self):
+        return self.d.popleft()
+
+    def __iter__(self):
+        return iter(self.d)
+
+    def __len__(self):
+        return len(self.d)
+
+
+def node_iteration(peer_no, command, payload, queue_before, interfere=False, n_peers=2):
     """Replay harness for ONE iteration of bits.p2p.Node.recv_loop for peer `peer_no`: the peer's socket carries exactly
     one framed message (command, payload); the node's queue initially holds `queue_before`.
     Returns (queue afterwards, bytes sent to each peer, per-peer data).  Symbolically the node is a ghost record
@@ -87,7 +114,7 @@ def node_iteration(peer_no, command, payload, queue_before, n_peers=2):
     operations of this thread."""
     from collections import deque
     node = bits.p2p.Node()
-    node._msg_queue = deque(queue_before)
+    node._msg_queue = RelyDeque(queue_before, [("other-peer", b"inv", -1)] if interfere else [])
     for i in range(n_peers):
         node._peer_sockets[i] = SendSocket(frame(bits.p2p.MAGIC_START_BYTES, command, payload) if i == peer_no else b"")
         node._peer_threads[i] = _Thread(1)
